@@ -235,6 +235,10 @@ def run(tier, seed, replay=None):
             return data["complexity"]["Config"]["low_threshold"] if data else None
 
         def put(d, name, val):
+            if val is None:       # a pyproject.toml that does not configure pyscn at all: it is not a configuration file of pyscn
+                with open(os.path.join(d, name), "w") as f:
+                    f.write("[project]\nname = \"x\"\n\n[tool.black]\nline-length = 100\n")
+                return
             with open(os.path.join(d, name), "w") as f:
                 f.write(("[complexity]\nlow_threshold = %d\n" % val) if name == ".pyscn.toml" else ("[tool.pyscn.complexity]\nlow_threshold = %d\n" % val))
 
@@ -254,6 +258,9 @@ def run(tier, seed, replay=None):
             ("nearest of two .pyscn.toml (mid vs top)", [(mid, ".pyscn.toml", 4), (top, ".pyscn.toml", 7)], 4),
             ("nearest of two pyproject.toml", [(mid, "pyproject.toml", 3), (top, "pyproject.toml", 6)], 3),
             ("nearer .pyscn.toml, farther pyproject.toml", [(mid, ".pyscn.toml", 4), (top, "pyproject.toml", 6)], 4),
+            ("a nearer pyproject.toml without [tool.pyscn] is not a pyscn configuration", [(mid, "pyproject.toml", None), (top, "pyproject.toml", 6)], 6),
+            ("pyproject.toml without [tool.pyscn] next to the code, .pyscn.toml above", [(deep, "pyproject.toml", None), (top, ".pyscn.toml", 7)], 7),
+            ("only a pyproject.toml without [tool.pyscn]", [(deep, "pyproject.toml", None)], 9),
             ("no file at all", [], 9),
         ]
         for title, files, want in scenarios:
